@@ -171,7 +171,36 @@ def stores_to_field(body, field, cleanup=False):
         names = [p["n"] for p in pl["p"] if isinstance(p, dict) and "f" in p]
         if names and names[-1] == field:
             out.append((i, j, st))
+    # `mem::replace(&mut P.field, v)` stores v into P.field (the old value is the call's result): the same store,
+    # spelled as a call. Reported as a pseudo-assignment at the end of the calling block.
+    for cs in body.calls():
+        if cs.f is None or cs.f.get("path") != "std::mem::replace" or len(cs.args) != 2 or (not cleanup and body.is_cleanup(cs.bb)):
+            continue
+        pl = _borrowed_place(body, cs.args[0])
+        if pl is None:
+            continue
+        names = [p["n"] for p in pl["p"] if isinstance(p, dict) and "f" in p]
+        if names and names[-1] == field:
+            out.append((cs.bb, len(body.blocks[cs.bb]["st"]), {"s": "assign", "pl": pl, "rv": {"r": "use", "o": cs.args[1]}, "sp": cs.term.get("sp"), "via": "mem::replace"}))
     return out
+
+
+def _borrowed_place(body, op, depth=0):
+    """the place P when the operand is a local defined once as `&mut P` (through whole-local moves and `&mut *r` reborrows)"""
+    pl = op.get("m") or op.get("c")
+    if pl is None or pl["p"] or depth > 4:
+        return None
+    ds = body.defs().get(pl["l"], [])
+    if len(ds) != 1 or ds[0][0] != "assign":
+        return None
+    rv = ds[0][3]["rv"]
+    if rv["r"] == "use":
+        return _borrowed_place(body, rv["o"], depth + 1)
+    if rv["r"] == "ref":
+        if rv["pl"]["p"] == ["*"]:
+            return _borrowed_place(body, {"c": {"l": rv["pl"]["l"], "p": []}}, depth + 1)
+        return rv["pl"]
+    return None
 
 
 def drops_of_field(body, field, cleanup=False):
